@@ -123,6 +123,9 @@ pub struct Case {
     /// reset the traps, so a signal sent to a young child stays pending
     #[serde(default)]
     pub trapterm: bool,
+    /// engine (k): a process-table history instead of a program
+    #[serde(default)]
+    pub khist: Option<crate::procs::KHist>,
 }
 
 // ---------------------------------------------------------------- generation
@@ -432,6 +435,7 @@ pub fn generate(rng: &mut Rng, tier: Tier) -> Case {
         dash_c,
         sigpar,
         trapterm,
+        khist: None,
     }
 }
 
@@ -1304,6 +1308,34 @@ fn fd_leak(obs: &Observed, what: &str) -> Option<(String, String, String)> {
     }
 }
 
+fn khist_case(h: crate::procs::KHist) -> Case {
+    Case {
+        nodes: Vec::new(),
+        pipefail: false,
+        dash_c: false,
+        sigpar: false,
+        trapterm: false,
+        khist: Some(h),
+    }
+}
+
+fn run_khist(h: &crate::procs::KHist, reach: &mut BTreeMap<&'static str, u64>) -> Option<Failure> {
+    let r = crate::sim::catch(|| crate::procs::run(h, reach));
+    let v = match r {
+        Ok(v) => v,
+        Err(p) => Some(("panic".to_string(), p)),
+    };
+    v.map(|(class, detail)| Failure {
+        key: format!("kernel:{class}"),
+        class,
+        detail: format!("{detail}\n--- history ---\n{}", serde_json::to_string(&h.ops).unwrap_or_default()),
+        case: serde_json::to_value(khist_case(h.clone())).unwrap(),
+        cfg: SimConfig::default(),
+        decisions: Vec::new(),
+        history_tail: Vec::new(),
+    })
+}
+
 fn run_crash(c: &Case, cfg: &SimConfig, decider: Decider) -> Observed {
     crate::shellrun::run_script_with(&spec_of(c), cfg, decider, |_| {}, crate::shellrun::crash_env(cfg))
 }
@@ -1316,7 +1348,7 @@ impl Prop for C13 {
         "exploration"
     }
     fn rule(&self) -> String {
-        "Seeded generator of race-free-by-construction shell programs (pipelines of 2-4 stages with read/relay/count stages, ( ), $( ), `{ ...; exit N; } >file &` jobs with $! capture, wait PID / wait / wait UNKNOWN, if/for/functions, pipefail on/off, nesting <= 3); expectations from a reference interpreter of the generator AST. Each program runs whole on the simulated OS under the FIFO baseline plus seeded schedules (random, PCT, round-robin, FIFO-with-deviations) with preemption at kernel-call boundaries and short reads/writes. A run counts as distinct non-trivial when it had >= 2 processes, >= 1 scheduling point with >= 2 ready tasks (or >= 1 fired fault) and its (program hash, schedule hash, fault count) triple was not seen before (hash set). Added configurations: programs in which the main shell traps USR1 and foreground children send it, or traps TERM/HUP and kills young jobs with them; children waiting for the parent's jobs (127); orphans; every program ends by writing the shell's descriptor table to a file (must be the initial one). Fault runs with a relaxed oracle (termination, true wait statuses, nothing runs after its death, no descriptor left behind): fork fails with EAGAIN at a seeded position; a descriptor allocation of any process fails with EMFILE at a seeded position; children are killed with SIGKILL from outside at seeded steps.".into()
+        "Seeded generator of race-free-by-construction shell programs (pipelines of 2-4 stages with read/relay/count stages, ( ), $( ), `{ ...; exit N; } >file &` jobs with $! capture, wait PID / wait / wait UNKNOWN, if/for/functions, pipefail on/off, nesting <= 3); expectations from a reference interpreter of the generator AST. Each program runs whole on the simulated OS under the FIFO baseline plus seeded schedules (random, PCT, round-robin, FIFO-with-deviations) with preemption at kernel-call boundaries and short reads/writes. A run counts as distinct non-trivial when it had >= 2 processes, >= 1 scheduling point with >= 2 ready tasks (or >= 1 fired fault) and its (program hash, schedule hash, fault count) triple was not seen before (hash set). Engine (k): 20/60 seeded histories per case on the simulated kernel's process table (fork, exit, kill incl. STOP/CONT/KILL/0, sigmask, sigaction, wait) against a POSIX life-cycle model. Added configurations: programs in which the main shell traps USR1 and foreground children send it, or traps TERM/HUP and kills young jobs with them; children waiting for the parent's jobs (127); orphans; every program ends by writing the shell's descriptor table to a file (must be the initial one). Fault runs with a relaxed oracle (termination, true wait statuses, nothing runs after its death, no descriptor left behind): fork fails with EAGAIN at a seeded position; a descriptor allocation of any process fails with EMFILE at a seeded position; children are killed with SIGKILL from outside at seeded steps.".into()
     }
     fn assumptions(&self) -> Vec<String> {
         vec![
@@ -1340,6 +1372,26 @@ impl Prop for C13 {
     }
 
     fn run_case(&self, seed: u64, index: u64, tier: Tier, stats: &mut Stats) -> Option<Failure> {
+        // engine (k): process-table histories of the simulated kernel
+        {
+            let mut kr = Rng::stream(seed, 1377, index);
+            let n = match tier {
+                Tier::Quick => 20,
+                Tier::Thorough => 60,
+            };
+            let mut reach = BTreeMap::new();
+            for _ in 0..n {
+                let hist = crate::procs::generate(&mut kr, tier == Tier::Thorough);
+                stats.count("process_table_histories", 1);
+                if let Some(f) = run_khist(&hist, &mut reach) {
+                    stats.count("violating_runs", 1);
+                    return Some(f);
+                }
+            }
+            for (k, v) in reach {
+                stats.count(k, v);
+            }
+        }
         let mut rng = Rng::stream(seed, 13, index);
         let case = generate(&mut rng, tier);
         let exp = expect(&case);
@@ -1457,6 +1509,9 @@ impl Prop for C13 {
 
     fn rerun(&self, case: &Value, cfg: &SimConfig, decisions: &[Decision]) -> Option<Failure> {
         let c: Case = serde_json::from_value(case.clone()).ok()?;
+        if let Some(h) = &c.khist {
+            return run_khist(h, &mut BTreeMap::new());
+        }
         let exp = expect(&c);
         if cfg.fail_alloc_at.is_some() {
             let (base_fds, _) = emfile_baseline(&c);
@@ -1491,6 +1546,12 @@ impl Prop for C13 {
         let Ok(c) = serde_json::from_value::<Case>(case.clone()) else {
             return Vec::new();
         };
+        if let Some(h) = &c.khist {
+            return crate::procs::shrink(h)
+                .into_iter()
+                .map(|h| serde_json::to_value(khist_case(h)).unwrap())
+                .collect();
+        }
         let mut out = Vec::new();
         for mut v in variants(&c.nodes) {
             repair(&mut v, &mut BTreeSet::new());
@@ -1505,6 +1566,7 @@ impl Prop for C13 {
                     dash_c: c.dash_c,
                     sigpar: c.sigpar,
                     trapterm: c.trapterm,
+                    khist: None,
                 })
                 .unwrap(),
             );
@@ -1517,6 +1579,7 @@ impl Prop for C13 {
                     dash_c: c.dash_c,
                     sigpar: c.sigpar,
                     trapterm: c.trapterm,
+                    khist: None,
                 })
                 .unwrap(),
             );
